@@ -42,6 +42,13 @@ Remove(q, i) == IF Len(q) <= 1 THEN <<>> ELSE [j \in 1..(Len(q) - 1) |-> IF j < 
 (* H ResponseHeaderTimeout (client), I IdleTimeout (server); FS firstSettingsTimeout,   *)
 (* PF prefaceTimeout, GA goAwayTimeout.  0 = disabled (R, W, H, I).                     *)
 
+\* Before golang/net commit b97c328 the read-idle timer of the client outlived the connection
+\* (clientConnReadLoop.run re-armed it after the failing ReadFrame and never stopped it) and
+\* healthCheck ran on the closed connection (LateExpire, deviation "late-hc").  The contract, and
+\* the repaired tree: the timer dies with the read loop and healthCheck ignores a closed
+\* connection.  LateHC = TRUE gives the old behaviour (kept for reference and for the mutation test).
+LateHC == FALSE
+
 Out0 == [hc |-> 0, pa |-> 0, ga |-> <<>>, rst |-> {}, res |-> {}, lost |-> 0,
          close |-> "none", ok |-> TRUE, opt |-> FALSE, pac |-> 0]
 
@@ -52,6 +59,7 @@ Init0(cf) ==
       hc |-> <<>>,               \* health-check PINGs in flight: time left to their PingTimeout
       late |-> None,             \* client: the read-idle timer re-armed by the read that failed
       zh |-> <<>>,               \* client: health checks still waiting after the Transport closed the connection
+      zo |-> FALSE,              \* the last of them started at the very instant of the close: it may not exist
       str |-> [x \in S |-> "none"],
       rh |-> [x \in S |-> None], \* client: ResponseHeaderTimeout timers
       pf |-> IF cf.side = "s" THEN cf.PF ELSE None,
@@ -100,7 +108,8 @@ Close(cf, s, why, class) ==
               \* timer once more (named deviation "late-hc" when it fires)
               \* (peer closed: by the full period; closed by the Transport itself: the harness's Read
               \* stays blocked, the timer keeps the time it had)
-              !.late = IF cf.side = "c" /\ cf.R > 0 /\ why = "peer" THEN cf.R
+              !.late = IF ~LateHC THEN None
+                       ELSE IF cf.side = "c" /\ cf.R > 0 /\ why = "peer" THEN cf.R
                        ELSE IF own THEN s.ri ELSE None]
 
 \* server: the end of every serve-loop iteration arms the shutdown timer once the GOAWAY has
@@ -218,7 +227,7 @@ LateExpire(cf, s) ==
 \* client: a health check that outlived the connection gives up
 ZExpire(cf, s) ==
     IF SeqMin(s.zh) # 0 THEN s
-    ELSE [s EXCEPT !.zh = SelectSeq(s.zh, LAMBDA t : t > 0),
+    ELSE [s EXCEPT !.zh = SelectSeq(s.zh, LAMBDA t : t > 0), !.zo = FALSE,
                    !.out.lost = @ + Cardinality({j \in 1..Len(s.zh) : s.zh[j] = 0})]
 
 PfExpire(cf, s) == IF s.closed \/ s.pf # 0 THEN s ELSE Close(cf, s, "preface", "other")
@@ -245,7 +254,11 @@ Expire(cf, s) ==
         e == WExpire(cf, PingExpire(cf, d))
         f == ShutExpire(cf, FsExpire(cf, PfExpire(cf, e)))
         g == LateExpire(cf, ZExpire(cf, f))
-    IN IF many /\ g.closed /\ ~s.closed THEN [g EXCEPT !.out.opt = TRUE] ELSE g
+        \* client: the read-idle timer and a PingTimeout due together: the new health check either
+        \* registered its PING before the connection was closed (and waits for it) or found it closed
+        race == cf.side = "c" /\ ~s.closed /\ s.ri = 0 /\ SeqMin(s.hc) = 0 /\ g.closed /\ Len(g.zh) > 0
+        h == IF race THEN [g EXCEPT !.zo = TRUE] ELSE g
+    IN IF many /\ h.closed /\ ~s.closed THEN [h EXCEPT !.out.opt = TRUE] ELSE h
 
 RECURSIVE Adv(_, _, _)
 Adv(cf, s, d) ==
@@ -386,7 +399,7 @@ ClosedIsQuiet ==
                 /\ Open(s) = {}
 QuietStep == [][s.closed => (s'.out.hc = 0 /\ s'.out.pa = 0 /\ s'.out.ga = <<>> /\ s'.out.rst = {}
                              /\ s'.out.res = {} /\ s'.out.close = "none")]_vars
-NoLateHealthCheck == s.nd # "late-hc"      \* NOT an invariant of the pinned tree (finding)
+NoLateHealthCheck == s.nd # "late-hc" /\ ~Armed(s.late)
 
 \* a request fails with the timeout error only at its ResponseHeaderTimeout, and never after
 \* its response headers were delivered
